@@ -961,3 +961,231 @@ Proof.
   intros T. destruct (T (B "wait") wait_plugin_v0 eq_refl [] (fx_shutdown_effect true fx_init)) as [r E].
   vm_compute in E. discriminate E.
 Qed.
+
+(** ================================================================================================
+    The accept loop with its channel ([loop_step]): a close is final whenever it arrives -- also
+    between the removal of the socket file and the re-listen
+    ================================================================================================ *)
+
+Lemma existsb_id_app a b : existsb (fun c : bool => c) (a ++ b) = existsb (fun c => c) a || existsb (fun c => c) b.
+Proof. apply existsb_app. Qed.
+
+(** the emptying loop of the code breaks out exactly when a close is in the channel *)
+Lemma drain_id_spec ch :
+  match drain (fun c => c) ch with
+  | Some _ => existsb (fun c => c) ch = true
+  | None => existsb (fun c => c) ch = false
+  end.
+Proof.
+  induction ch as [|c r IH]; [reflexivity|].
+  cbn [drain existsb]. destruct c; [reflexivity|]. cbn [orb]. exact IH.
+Qed.
+
+(** every step keeps a pending close pending (in EVERY state, reachable or not) *)
+Lemma loop_step_close_pending st ev : close_pending st = true -> close_pending (loop_step st ev) = true.
+Proof.
+  destruct st as [pc ch f]. unfold close_pending, loop_step, loop_step_gen. cbn [lp_pc lp_chan lp_file].
+  intros H. destruct ev.
+  - exact H.
+  - destruct f; cbn [lp_pc lp_chan]; [exact H|].
+    destruct pc; try reflexivity; rewrite existsb_id_app, H; reflexivity.
+  - cbn [lp_pc lp_chan]. destruct pc; try reflexivity; rewrite existsb_id_app, H; reflexivity.
+  - destruct pc.
+    + destruct ch as [|[|] r]; cbn [lp_pc lp_chan]; [discriminate H|reflexivity|exact H].
+    + pose proof (drain_id_spec ch) as D. destruct (drain (fun c => c) ch); [reflexivity|]. congruence.
+    + reflexivity.
+Qed.
+
+Lemma loop_close_final evs : forall st, close_pending st = true -> close_pending (loop_run st evs) = true.
+Proof.
+  unfold loop_run. induction evs as [|ev r IH]; intros st H; [exact H|].
+  cbn [fold_left]. apply IH. apply loop_step_close_pending. exact H.
+Qed.
+
+(** with a close pending nobody is ever bound to the path again: the loop is at most two of its own
+    steps away from [LStopped] (receive the [false], then find the close while emptying the channel),
+    whatever else happens in between, and it never leaves [LStopped] *)
+Definition loop_steps_left (st : loop_state) : nat :=
+  match lp_pc st with LStopped => 0 | LPause => 1 | LAccept => 2 end.
+Definition is_floop (ev : loop_event) : bool := match ev with FLoop => true | _ => false end.
+
+Lemma loop_step_progress st ev :
+  close_pending st = true ->
+  (loop_steps_left (loop_step st ev) <= loop_steps_left st - (if is_floop ev then 1 else 0))%nat.
+Proof.
+  destruct st as [pc ch f]. unfold close_pending, loop_steps_left, loop_step, loop_step_gen.
+  cbn [lp_pc lp_chan lp_file]. intros H. destruct ev; cbn [is_floop].
+  - cbn [lp_pc]. lia.
+  - destruct f; cbn [lp_pc]; lia.
+  - cbn [lp_pc]. lia.
+  - destruct pc.
+    + destruct ch as [|[|] r]; cbn [lp_pc]; [discriminate H|lia|lia].
+    + pose proof (drain_id_spec ch) as D. destruct (drain (fun c => c) ch); cbn [lp_pc]; [lia|congruence].
+    + cbn [lp_pc]. lia.
+Qed.
+
+Lemma loop_stops_after_close evs : forall st,
+  close_pending st = true ->
+  (loop_steps_left (loop_run st evs) <= loop_steps_left st - length (filter is_floop evs))%nat.
+Proof.
+  unfold loop_run. induction evs as [|ev r IH]; intros st H; [cbn; lia|].
+  cbn [fold_left filter].
+  pose proof (loop_step_progress st ev H) as P.
+  pose proof (IH (loop_step st ev) (loop_step_close_pending st ev H)) as Q.
+  destruct (is_floop ev); cbn [length]; lia.
+Qed.
+
+Lemma loop_stopped_of_left st : loop_steps_left st = 0%nat -> lp_pc st = LStopped.
+Proof. unfold loop_steps_left. destruct (lp_pc st); [discriminate|discriminate|reflexivity]. Qed.
+
+Lemma loop_close_stops st evs :
+  close_pending st = true -> (2 <= length (filter is_floop evs))%nat ->
+  lp_pc (loop_run st evs) = LStopped /\ connectable (loop_run st evs) = false.
+Proof.
+  intros H L. pose proof (loop_stops_after_close evs st H) as P.
+  assert (B : (loop_steps_left st <= 2)%nat) by (unfold loop_steps_left; destruct (lp_pc st); lia).
+  assert (E : lp_pc (loop_run st evs) = LStopped) by (apply loop_stopped_of_left; lia).
+  split; [exact E|]. unfold connectable. rewrite E. reflexivity.
+Qed.
+
+(** ... and once the listener has been dropped with a close pending, the loop never gets back to
+    [accept()]: a CLOSED instance does not bind the path again *)
+Lemma loop_never_rebinds st evs :
+  close_pending st = true -> lp_pc st <> LAccept ->
+  lp_pc (loop_run st evs) <> LAccept /\ connectable (loop_run st evs) = false.
+Proof.
+  intros H Hp. pose proof (loop_stops_after_close evs st H) as P.
+  assert (B : (loop_steps_left st <= 1)%nat) by (unfold loop_steps_left; destruct (lp_pc st); [congruence|lia|lia]).
+  assert (Q : (loop_steps_left (loop_run st evs) <= 1)%nat) by lia.
+  unfold loop_steps_left in Q. unfold connectable.
+  destruct (lp_pc (loop_run st evs)); [lia| |]; split; (discriminate || reflexivity).
+Qed.
+
+(** the invariant of the reachable states *)
+Lemma loop_inv_init : loop_inv loop_init.
+Proof. split; [intros []|discriminate]. Qed.
+
+Lemma loop_inv_step st ev : loop_inv st -> loop_inv (loop_step st ev).
+Proof.
+  destruct st as [pc ch f]. unfold loop_inv, loop_step, loop_step_gen. cbn [lp_pc lp_chan lp_file].
+  intros [I1 I2]. destruct ev.
+  - cbn [lp_pc lp_chan lp_file]. split; reflexivity.
+  - destruct f eqn:F; cbn [lp_pc lp_chan lp_file]; [split; assumption|]. split; reflexivity.
+  - cbn [lp_pc lp_chan lp_file]. split; [|exact I2].
+    intros H. apply in_app_or in H as [H|[H|[]]]; [exact (I1 H)|discriminate H].
+  - destruct pc.
+    + destruct ch as [|[|] r]; cbn [lp_pc lp_chan lp_file].
+      * split; assumption.
+      * split; [|discriminate]. intros H. apply I1. right. exact H.
+      * split; intros _; apply I1; left; reflexivity.
+    + destruct (drain (fun c => c) ch) as [r|] eqn:D; cbn [lp_pc lp_chan lp_file].
+      * split; [|discriminate]. intros _. apply I2. reflexivity.
+      * rewrite (I2 eq_refl). cbn [lp_pc lp_chan lp_file]. split; [intros []|discriminate].
+    + split; assumption.
+Qed.
+
+Lemma loop_inv_run evs : forall st, loop_inv st -> loop_inv (loop_run st evs).
+Proof.
+  unfold loop_run. induction evs as [|ev r IH]; intros st H; [exact H|].
+  cbn [fold_left]. apply IH. apply loop_inv_step. exact H.
+Qed.
+
+(** after the pause the path can always be bound ([Err(_) => return] is not reachable) *)
+Lemma loop_rebind_succeeds st :
+  loop_inv st -> lp_pc st = LPause -> close_pending st = false ->
+  loop_step st FLoop = {| lp_pc := LAccept; lp_chan := []; lp_file := true |}.
+Proof.
+  destruct st as [pc ch f]. unfold loop_inv, close_pending, loop_step, loop_step_gen. cbn [lp_pc lp_chan lp_file].
+  intros [_ I2] -> H. pose proof (drain_id_spec ch) as D.
+  destruct (drain (fun c => c) ch); [congruence|]. rewrite (I2 eq_refl). reflexivity.
+Qed.
+
+(** Forward simulation: every step of the loop is zero or one step of the coarse listener
+    ([EUnlink] for the removal, [ERelisten] for the successful re-bind, a closing event for a close
+    that is sent), seen through [loop_listener]. *)
+Lemma loop_simulates st ev :
+  loop_inv st ->
+  l_listener (fold_left coarse_step (coarse_events st ev) (coarse_of st)) = loop_listener (loop_step st ev).
+Proof.
+  destruct st as [pc ch f]. unfold loop_inv. cbn [lp_pc lp_chan lp_file]. intros [I1 I2].
+  unfold coarse_events, coarse_of, coarse_step, lstep, loop_listener, close_pending, loop_step, loop_step_gen.
+  cbn [lp_pc lp_chan lp_file].
+  destruct ev; cbn [fold_left lstep_gen l_listener l_env with_listener lp_pc lp_chan lp_file].
+  - (* FRemove *)
+    destruct pc; cbn [lp_pc lp_chan lp_file].
+    + destruct (existsb (fun c => c) ch); [reflexivity|]. destruct f; reflexivity.
+    + destruct (existsb (fun c => c) ch); reflexivity.
+    + reflexivity.
+  - (* FWatch *)
+    destruct f; cbn [lp_pc lp_chan lp_file]; [reflexivity|].
+    destruct pc; try reflexivity; rewrite existsb_id_app; cbn [existsb orb]; rewrite orb_false_r; reflexivity.
+  - (* FClose *)
+    destruct pc; cbn [lp_pc lp_chan lp_file]; try reflexivity;
+      rewrite existsb_id_app; cbn [existsb orb]; rewrite orb_true_r;
+      destruct (existsb (fun c => c) ch); try destruct f; reflexivity.
+  - (* FLoop *)
+    destruct pc; cbn [lp_pc lp_chan lp_file].
+    + destruct ch as [|[|] r]; cbn [fold_left lp_pc lp_chan lp_file existsb orb l_listener]; try reflexivity.
+      assert (F : f = false) by (apply I1; left; reflexivity). subst f.
+      destruct (existsb (fun c => c) r); reflexivity.
+    + pose proof (drain_id_spec ch) as D.
+      destruct (drain (fun c => c) ch) as [r|]; rewrite D; cbn [fold_left lp_pc lp_chan lp_file l_listener]; [reflexivity|].
+      rewrite (I2 eq_refl). cbn [lstep_gen l_listener with_listener lp_pc lp_chan lp_file existsb]. reflexivity.
+    + reflexivity.
+Qed.
+
+(** The same history with the emptying loop's test negated: the close that arrives during the pause
+    is thrown away and the CLOSED instance is bound to the path again. *)
+Lemma loop_negated_test_rebinds :
+  let evs := [FRemove; FWatch; FLoop; FClose; FLoop; FLoop] in
+  connectable (fold_left loop_step_neg evs loop_init) = true /\
+  lp_chan (fold_left loop_step_neg evs loop_init) = [] /\
+  lp_pc (loop_run loop_init evs) = LStopped /\
+  close_pending (loop_run loop_init [FRemove; FWatch; FLoop; FClose]) = true /\
+  lp_pc (loop_run loop_init [FRemove; FWatch; FLoop; FClose]) = LPause.
+Proof. repeat split. Qed.
+
+(** ---- the coarse listener: a closing response between the removal and the re-listen ---------------- *)
+Section CloseWhileUnlinked.
+  Variable S : Type.
+  Variable ps : plugins_chk S.
+  Variable blocked : bytes -> S -> bool.
+  Variable env_step : N -> S -> S * bool.
+  Variable ack : S -> S.
+
+  (** A request whose response closes, handled in ANY state of the listener (in particular [Unlinked]:
+      the file is gone, the path not yet bound again): its client gets the reply, and from then on
+      nobody listens, whatever follows -- also the [ERelisten] that was under way. *)
+  Lemma closing_response_final (st : lts_state S) k req hr s' evs :
+    conn_get k (l_conns st) = Some (PComplete req) ->
+    blocked req (l_env st) = false ->
+    handle_chk ps req (l_env st) = Ok (hr, s') -> hr_close hr = true ->
+    let st1 := lstep ps blocked env_step ack st (EHandle k) in
+    conn_get k (l_conns st1) = Some (PReplied (hr_data hr)) /\
+    l_listener (lrun ps blocked env_step ack st1 evs) = Closed /\
+    forall j, conn_get j (l_conns (lrun ps blocked env_step ack st1 evs)) = None ->
+              conn_get j (l_conns (lstep ps blocked env_step ack (lrun ps blocked env_step ack st1 evs) (EConnect j))) = Some PRefused.
+  Proof.
+    intros Hk Hb E Hc. cbn zeta.
+    assert (E1 : lstep ps blocked env_step ack st (EHandle k)
+                 = {| l_listener := Closed; l_env := if response_ack ps req (l_env st) && true then ack s' else s';
+                      l_conns := conn_set k (PReplied (hr_data hr)) (l_conns st) |}).
+    { unfold lstep. cbn [lstep_gen]. rewrite Hk. unfold run_task. rewrite Hb, E, Hc. reflexivity. }
+    rewrite E1. split; [cbn [l_conns]; apply conn_get_set_same|].
+    assert (C : l_listener (lrun ps blocked env_step ack
+                  {| l_listener := Closed; l_env := if response_ack ps req (l_env st) && true then ack s' else s';
+                     l_conns := conn_set k (PReplied (hr_data hr)) (l_conns st) |} evs) = Closed)
+      by (apply closed_final; reflexivity).
+    split; [exact C|]. intros j Hj. unfold lstep. cbn [lstep_gen]. rewrite Hj, C.
+    cbn [with_conn l_conns]. apply conn_get_set_same.
+  Qed.
+
+  (** the same for a close from outside the socket ([Manager::shutdown]) *)
+  Lemma env_close_final (st : lts_state S) e evs :
+    snd (env_step e (l_env st)) = true ->
+    l_listener (lrun ps blocked env_step ack (lstep ps blocked env_step ack st (EEnv e)) evs) = Closed.
+  Proof.
+    intros H. apply closed_final. unfold lstep. cbn [lstep_gen].
+    destruct (env_step e (l_env st)) as [s' c]. cbn [snd] in H. subst c. reflexivity.
+  Qed.
+End CloseWhileUnlinked.
